@@ -8,6 +8,8 @@ modes:
   shift      three comment lines inserted after every `def` line and at the top of every file (all line numbers move)
   log        `trace.mutter("enter <qualname>")`-style no-op statement (a bare string expression) inserted as the first
              statement of every function (statement indices move; blocks get one more statement)
+  dropelse   no `else` after an arm that ends in return/raise/continue/break
+  yoda       `x == CONST` written as `CONST == x`
   annotate   every simple local assignment gets a type annotation (`x: object = v`)
   messages   the text of every raised exception / logged message changed
   swapelse   two-armed ifs with simple arms rewritten as `if not c: B else: A`
@@ -191,7 +193,44 @@ def t_annotate(src):
     return ast.unparse(ast.fix_missing_locations(tree)) + "\n"
 
 
-MODES = {"annotate": t_annotate, "reformat": t_reformat, "shift": t_shift, "log": t_log, "rename": t_rename, "messages": t_messages, "swapelse": t_swapelse}
+def _terminates(stmts):
+    return bool(stmts) and isinstance(stmts[-1], (ast.Return, ast.Raise, ast.Continue, ast.Break))
+
+
+def t_dropelse(src):
+    """`if c: ...return/raise/continue/break  else: B` becomes `if c: ...` followed by B (no else after a terminating arm);
+    applied to the last if of an elif chain only when every earlier arm terminates too."""
+    tree = ast.parse(src)
+
+    def chain_ok(n):
+        return _terminates(n.body) and (not n.orelse or not (len(n.orelse) == 1 and isinstance(n.orelse[0], ast.If)) or chain_ok(n.orelse[0]))
+
+    for parent in ast.walk(tree):
+        for field in ("body", "orelse", "finalbody"):
+            stmts = getattr(parent, field, None)
+            if not isinstance(stmts, list):
+                continue
+            i = 0
+            while i < len(stmts):
+                st = stmts[i]
+                if isinstance(st, ast.If) and st.orelse and not (len(st.orelse) == 1 and isinstance(st.orelse[0], ast.If)) and _terminates(st.body):
+                    tail = st.orelse
+                    st.orelse = []
+                    stmts[i + 1 : i + 1] = tail
+                i += 1
+    return ast.unparse(ast.fix_missing_locations(tree)) + "\n"
+
+
+def t_yoda(src):
+    """`x == CONST` / `x != CONST` written as `CONST == x` / `CONST != x`."""
+    tree = ast.parse(src)
+    for n in ast.walk(tree):
+        if isinstance(n, ast.Compare) and len(n.ops) == 1 and isinstance(n.ops[0], (ast.Eq, ast.NotEq)) and isinstance(n.comparators[0], ast.Constant) and not isinstance(n.left, ast.Constant):
+            n.left, n.comparators[0] = n.comparators[0], n.left
+    return ast.unparse(ast.fix_missing_locations(tree)) + "\n"
+
+
+MODES = {"dropelse": t_dropelse, "yoda": t_yoda, "annotate": t_annotate, "reformat": t_reformat, "shift": t_shift, "log": t_log, "rename": t_rename, "messages": t_messages, "swapelse": t_swapelse}
 
 
 def main():
